@@ -342,22 +342,24 @@ theorem bRef_spec (env : VEnv) {s : NodeId} {i : Info} (hinfo : env.info? s = so
 
 /-! ### $dynamicRef -/
 
-theorem bDynamicRef_blk (env : VEnv) {s : NodeId} {i : Info}
+/-- the block under 2020-12 (where the keyword is in force) -/
+theorem bDynamicRef_blk2020 (env : VEnv) (hd20 : env.draft = .d2020) {s : NodeId} {i : Info}
     (hinfo : env.info? s = some i) (n : Node) (anns : Anns)
     (hlookup : ∀ name, dynLookup env name stack = .ok (Spec.dynTarget (specEnvOf env) stack name))
     {r : Spec.R} (h : Spec.kwDynamicRef (specEnvOf env) sub stack s n j = some r) :
     Blk j anns r (bDynamicRef env rec stack n (some i) (ofJson j) anns) := by
   unfold Spec.kwDynamicRef at h
   unfold bDynamicRef
+  rw [hd20]
   by_cases hd : n.dynamicRef = ""
   · have hd' : (n.dynamicRef != "") = false := by simp [hd]
     rw [hd'] at h ⊢
-    simp only [Bool.false_eq_true, if_false, Option.some.injEq] at h ⊢
+    simp only [Bool.false_and, Bool.false_eq_true, if_false, Option.some.injEq] at h ⊢
     subst h
     exact Blk_ok j anns
   · have hd' : (n.dynamicRef != "") = true := by simp [hd]
     rw [hd'] at h ⊢
-    simp only [if_true] at h ⊢
+    simp only [Bool.true_and, beq_d2020_d2020, if_true] at h ⊢
     have e1 : (specEnvOf env).dynInitial s = i.resolvedDynamicRef := by simp [specEnvOf, hinfo]
     have e2 : (specEnvOf env).dynName s = i.dynamicRefAnchor := by simp [specEnvOf, hinfo]
     rw [e1, e2] at h
@@ -377,6 +379,23 @@ theorem bDynamicRef_blk (env : VEnv) {s : NodeId} {i : Info}
         rw [hlookup]
         simp only [Res.bind_ok]
         exact mustValid_blk H hj anns h
+
+/-- the block under either draft: the Spec reads the node through the vocabulary of the draft -/
+theorem bDynamicRef_blk (env : VEnv) {s : NodeId} {i : Info}
+    (hinfo : env.info? s = some i) (n : Node) (anns : Anns)
+    (hlookup : ∀ name, dynLookup env name stack = .ok (Spec.dynTarget (specEnvOf env) stack name))
+    {r : Spec.R} (h : Spec.kwDynamicRef (specEnvOf env) sub stack s (Spec.vocab env.draft n) j = some r) :
+    Blk j anns r (bDynamicRef env rec stack n (some i) (ofJson j) anns) := by
+  cases hd : env.draft with
+  | d7 =>
+    rw [hd, kwDynamicRef_d7] at h
+    rw [bDynamicRef_d7 env hd]
+    simp only [Option.some.injEq] at h
+    subst h
+    exact Blk_ok j anns
+  | d2020 =>
+    rw [hd, vocab_d2020] at h
+    exact bDynamicRef_blk2020 H hj env hd hinfo n anns hlookup h
 
 /-! ### dependentSchemas -/
 
